@@ -261,9 +261,75 @@ def enumerate_faults(ctx, base, entry, rng, tier, stats):
     return clean
 
 
+def judge_block(ctx, sc, entry):
+    """Several calls on one long-lived policy (through the context-manager entries: inside ONE block, or a block per call): an earlier
+    call has long been settled when a later one - admitted as the half-open probe - ends without a verdict.  The slot is free again."""
+    recs, h, world = rig.run(sc, entry)
+    ctx.inc("runs")
+    ctx.inc("calls", len(recs))
+    ctx.inc("block_runs")
+    last = recs[-1]
+    allows = [e for e in last.trace if e[0] == "br.allow"]
+    if not allows or not allows[0][1] or allows[0][2] != "half_open":
+        ctx.inc("block_runs_whose_last_call_was_not_the_probe")
+        return
+    ctx.inc("block_probe_runs")
+    end = sc["calls"][-1]["outcomes"][0]
+    label = "ended:" + (end[1] if end[0] == "sp" else end[0]) + (":poll" if sc["calls"][-1].get("abort_at") is not None else "")
+    told = [e for e in last.trace if e[0] in ("br.success", "br.failure", "br.cancel")]
+    if not told:
+        ctx.viol("breaker-not-told:" + label, f"[{entry}] the last of {len(recs)} calls on one policy was admitted as the half-open probe and ended ({label}; final {last.final[0]} "
+                 f"{type(last.final[1]).__name__}) without any record_success/record_failure/record_cancel", common.payload(sc, entry, len(recs) - 1, block=True))
+    with env.active(world):
+        world.t += sc["cfg"]["breaker"]["recovery"] + 100.0
+        d = CircuitBreaker.allow(h.breaker)
+    if not d.allowed:
+        ctx.viol("probe-slot-leaked:" + label, f"[{entry}] the last of {len(recs)} calls on one policy was the half-open probe and ended ({label}); recovery_timeout_s + 100 s later allow() still "
+                 f"rejects (state {d.state.value}): breaker wedged", common.payload(sc, entry, len(recs) - 1, block=True))
+
+
+def blocks_of_calls(ctx, tier, rng):
+    k = 0
+    for entry in ENTRIES:
+        for first in ("ok", "fail"):
+            for end in (["sp", "abort"], ["sp", "nested_open", "TRANSIENT"], ["ok"], ["exc", "TRANSIENT", None], ["ok", "poll"]):
+                for shared in (True, False):
+                    for retry in (True, False):
+                        k += 1
+                        if k % ctx.nshards != ctx.shard:
+                            continue
+                        if not retry and not entry.lstrip("a").startswith("policy."):
+                            continue
+                        cfg = gen.mk_cfg(max_attempts=2, deadline_s=1000.0)
+                        if not retry:
+                            cfg["no_retry"] = True
+                        # the circuit is open and its timeout has passed: call 0 is a probe that succeeds (closes) or fails (re-opens)
+                        cfg["breaker"] = {"threshold": 1, "window": 10.0, "recovery": 5.0, "trip_on": ["TRANSIENT"], "class_thresholds": {}, "init": "expired",
+                                          "pre": [["fail", "TRANSIENT"], ["adv", 5.0 + gen.G]]}
+                        c0 = gen.mk_call([["ok"]] if first == "ok" else [["exc", "PERMANENT", None]])
+                        c1 = gen.mk_call([["exc", "PERMANENT", None]], gap=1.0)  # trips the (closed) circuit, or is rejected by the open one
+                        c1["outcomes"] = [["exc", "TRANSIENT", None]] if first == "ok" else [["ok"]]
+                        c2 = gen.mk_call([list(end[:3]) if end[0] != "ok" else ["ok"]], gap=5.0 + gen.G)
+                        poll = len(end) > 1 and end[1] == "poll"
+                        if poll:
+                            c2["abort_at"] = 0
+                        if first == "fail":
+                            # call 0 re-opened the circuit at t0; call 1 comes after the timeout as the probe that closes it; then one more
+                            # failure (call 2) opens it, and call 3 is the probe under test
+                            c1["gap"] = 5.0 + gen.G
+                            c1b = gen.mk_call([["exc", "TRANSIENT", None]], gap=1.0)
+                            calls = [c0, c1, c1b, c2]
+                        else:
+                            calls = [c0, c1, c2]
+                        sc = {"cfg": cfg, "place": gen.default_place(), "bs_kind": "sync", "sleeper_kind": "async", "timeline": False, "poll": bool(poll), "calls": calls, "fault": None,
+                              "ctx_block_shared": shared}
+                        judge_block(ctx, sc, entry)
+
+
 def work(ctx, tier):
     stats = {}
     rng = common.rng_for(ctx, "main")
+    blocks_of_calls(ctx, tier, rng)
     nbase = (200 if tier == "quick" else 2400) // ctx.nshards
     bases = base_scenarios(rng, nbase)
     for k, base in enumerate(bases):
@@ -358,6 +424,7 @@ def seen_exception_objects(ctx):
 
 def conclude(ctx):
     floors = {
+        "block_probe_runs": (ctx.cnt["block_probe_runs"], 60),
         "probes_ending_with_an_exception_object_seen_before": (ctx.cnt["probes_ending_with_an_exception_object_seen_before"], 12),
         "probe_runs": (ctx.cnt["probe_runs"], 500),
         "second_outage_continuations": (ctx.cnt["second_outage_continuations"], 400),
@@ -395,6 +462,8 @@ def replay(data):
     p = data["payload"]
     if "tspec" in p:
         return tconc.replay(p)
+    if p.get("block"):
+        return common.replay_with(data, judge_block)
     if "seen_exception" in p:
         class C:
             bad = []
